@@ -13,7 +13,10 @@ def load():
     from evo.core import lie_algebra, transformations
     ns.transformations = transformations
     from evo.tools import pandas_bridge, file_interface
-    from evo import main_ape, main_rpe
+    from evo import main_ape, main_rpe, common_ape_rpe
+    from evo.tools import settings as evo_settings
+    ns.common_ape_rpe = common_ape_rpe
+    ns.settings = evo_settings
     ns.evo = evo
     ns.EvoException = evo.EvoException
     ns.trajectory, ns.sync, ns.metrics = trajectory, sync, metrics
